@@ -1,8 +1,9 @@
+from checks import finite
 from checks.generic import run_components
 
 ASSUME = ["A-INT: Python/numpy ints treated as mathematical integers", "A-FLOAT: floats treated as reals"]
 
 
 def run(tier, seed):
-    return run_components("C02", tier, seed, ['e1', 'e2'], ASSUME,
+    return run_components("C02", tier, seed, ["e1", finite.c02_geometry_access, "e2"], ASSUME,
                           ["kernelvc (E2 walker; scoping mirrors C/formatter.py)", "UFL form data as oracle for extents"])
